@@ -132,3 +132,153 @@ func itoa(v int64) string {
 		return runDriver(cc, modulePath+"/httpgrpc", src, res)
 	}
 }
+
+const doHttpCallDriver = `package httpgrpc
+
+import (
+	"bytes"
+	"context"
+	"encoding/binary"
+	"errors"
+	"io"
+	"io/ioutil"
+	"net/http"
+	"net/url"
+	"runtime"
+	"testing"
+
+	"google.golang.org/grpc"
+	"google.golang.org/grpc/codes"
+	"google.golang.org/grpc/status"
+)
+
+type zzRT struct{ body io.ReadCloser }
+
+func (r zzRT) RoundTrip(req *http.Request) (*http.Response, error) {
+	go io.Copy(ioutil.Discard, req.Body)
+	return &http.Response{StatusCode: 200, Status: "200 OK", Header: http.Header{}, Body: r.body, Request: req}, nil
+}
+
+type zzErrReader struct {
+	data []byte
+	err  error
+}
+
+func (r *zzErrReader) Read(p []byte) (int, error) {
+	if len(r.data) == 0 {
+		return 0, r.err
+	}
+	n := copy(p, r.data)
+	r.data = r.data[n:]
+	return n, nil
+}
+
+func zzStream(t *testing.T, body io.Reader) grpc.ClientStream {
+	u, _ := url.Parse("http://example.invalid/")
+	ch := &Channel{Transport: zzRT{ioutil.NopCloser(body)}, BaseURL: u}
+	cs, err := ch.NewStream(context.Background(), &grpc.StreamDesc{ServerStreams: true, ClientStreams: true}, "/svc/M")
+	if err != nil {
+		t.Fatalf("NewStream: %%v", err)
+	}
+	return cs
+}
+
+func TestZZGovcReplay(t *testing.T) {
+	scenario := %q
+	sz := int32(%d)
+	switch scenario {
+	case "alloc":
+		// body: one size prefix announcing sz bytes, then nothing. The decoder must not
+		// allocate more than the per-message limit on the strength of that prefix.
+		var b bytes.Buffer
+		binary.Write(&b, binary.BigEndian, sz)
+		var m0, m1 runtime.MemStats
+		runtime.GC()
+		runtime.ReadMemStats(&m0)
+		cs := zzStream(t, &b)
+		var msg HttpTrailer
+		err := cs.RecvMsg(&msg)
+		runtime.ReadMemStats(&m1)
+		grown := m1.TotalAlloc - m0.TotalAlloc
+		if grown > uint64(maxMessageSize) {
+			t.Fatalf("GOVC-REPLAY: VIOLATED size prefix %%d made the client allocate %%d bytes (limit %%d); RecvMsg = %%v", sz, grown, maxMessageSize, err)
+		}
+	case "final-error":
+		// the final error published for RecvMsg must be reportable: neither a clean
+		// io.EOF for a cut response nor a bare context error
+		func() {
+			cs := zzStream(t, bytes.NewReader(nil))
+			var msg HttpTrailer
+			if err := cs.RecvMsg(&msg); err == io.EOF || err == nil {
+				t.Errorf("GOVC-REPLAY: VIOLATED response body cut before the trailer frame is reported as a clean end of stream: RecvMsg = %%v", err)
+			}
+		}()
+		for _, ce := range []error{context.Canceled, context.DeadlineExceeded} {
+			cs := zzStream(t, &zzErrReader{err: ce})
+			var msg HttpTrailer
+			err := cs.RecvMsg(&msg)
+			if errors.Is(err, ce) && status.Code(err) == codes.Unknown {
+				t.Errorf("GOVC-REPLAY: VIOLATED RecvMsg returned the bare context error %%v (status code %%v) instead of a Canceled/DeadlineExceeded status", err, status.Code(err))
+			}
+		}
+	case "clean-eof":
+		// body ends cleanly where a frame (at least the trailer) must start
+		cs := zzStream(t, bytes.NewReader(nil))
+		var msg HttpTrailer
+		err := cs.RecvMsg(&msg)
+		if err == io.EOF || err == nil {
+			t.Fatalf("GOVC-REPLAY: VIOLATED response body cut before the trailer frame is reported as a clean end of stream: RecvMsg = %%v", err)
+		}
+	case "ctx-error":
+		// the body read fails with a bare context error (what net/http returns when the
+		// request context is cancelled while the server stalls)
+		for _, ce := range []error{context.Canceled, context.DeadlineExceeded} {
+			cs := zzStream(t, &zzErrReader{err: ce})
+			var msg HttpTrailer
+			err := cs.RecvMsg(&msg)
+			if errors.Is(err, ce) && status.Code(err) == codes.Unknown {
+				t.Fatalf("GOVC-REPLAY: VIOLATED RecvMsg returned the bare context error %%v (status code %%v) instead of a Canceled/DeadlineExceeded status", err, status.Code(err))
+			}
+		}
+	}
+}
+`
+
+func init() {
+	replayDrivers["httpgrpc.(*clientStream).doHttpCall"] = func(cc *checkCtx, rec *obRecord, f *Failure) map[string]interface{} {
+		res := map[string]interface{}{"attempted": false}
+		scenario := ""
+		switch {
+		case rec.o.Class == "alloc":
+			scenario = "alloc"
+		case strings.Contains(rec.o.Name, "truncated_response_is_never_a_clean_end"):
+			scenario = "clean-eof"
+		case strings.Contains(rec.o.Name, "never_a_bare_context_error"):
+			scenario = "ctx-error"
+		case strings.Contains(rec.o.Name, "final_error_is_reportable"):
+			scenario = "final-error"
+		default:
+			res["reason"] = "no replay scenario for this obligation of doHttpCall"
+			return res
+		}
+		sz := int64(0)
+		if scenario == "alloc" {
+			for k, iv := range modelInts(f.Race.Output) {
+				if strings.HasPrefix(k, "httpgrpc_readSizePreface_r0!") && iv.IsInt64() {
+					sz = iv.Int64()
+				}
+			}
+			// do not replay multi-GiB allocations as is: the minimal violating size is limit+1
+			if sz > 100*1024*1024+1 {
+				res["model_size"] = sz
+				sz = 100*1024*1024 + 1
+			}
+			if sz <= 0 {
+				res["reason"] = "model has no positive size prefix"
+				return res
+			}
+		}
+		res["inputs"] = map[string]interface{}{"scenario": scenario, "size_prefix": sz}
+		return runDriver(cc, modulePath+"/httpgrpc", fmt.Sprintf(doHttpCallDriver, scenario, sz), res)
+	}
+}
